@@ -36,17 +36,21 @@ git apply -R "$OUT/patch.diff"
 git apply "$OUT/patch.diff"
 echo "   exit $without_rc"
 # apply to /repo, run every claimed check, revert
+# (REPO=<clean worktree of /repo at HEAD> and RESOLINT_BIN=<binary> let this step run while a
+# regression is patching /repo itself; tools/seeds_check.sh repeats it on /repo for every seed)
 cd /verif
-if ! git -C /repo apply --check "$OUT/patch.diff" 2>/dev/null; then echo "PATCH DOES NOT APPLY to /repo"; fi
-git -C /repo apply "$OUT/patch.diff"
+REPO=${REPO:-/repo}
+RESOLINT_BIN=${RESOLINT_BIN:-./bin/resolint}
+if ! git -C $REPO apply --check "$OUT/patch.diff" 2>/dev/null; then echo "PATCH DOES NOT APPLY to $REPO"; fi
+git -C $REPO apply "$OUT/patch.diff"
 PROPS=$(python3 -c 'import json; print(" ".join(c["property_id"] for c in json.load(open("/verif/MANIFEST.json"))["checks"]))')
 mkdir -p /tmp/.seedev-$NAME; cp /verif/known_findings.json /tmp/.seedev-$NAME/
 for p in $PROPS; do
-  ( VERIF_NOEVIDENCE=1 ./bin/resolint -repo /repo -verif /tmp/.seedev-$NAME -prop $p > /tmp/.seedev-$NAME/$p.log 2>&1 ) &
+  ( VERIF_NOEVIDENCE=1 $RESOLINT_BIN -repo $REPO -verif /tmp/.seedev-$NAME -prop $p > /tmp/.seedev-$NAME/$p.log 2>&1 ) &
   while [ $(jobs -r | wc -l) -ge 6 ]; do sleep 0.2; done
 done
 wait
-git -C /repo checkout -- .
+git -C $REPO checkout -- .
 DET=""
 for p in $PROPS; do
   if grep -q "^VIOLATION" /tmp/.seedev-$NAME/$p.log; then DET="$DET $p"; grep -v "^VIOLATION\|^analysed\|^    " /tmp/.seedev-$NAME/$p.log | grep "violation\|undecided" | cut -c1-300 | sed "s/^/   [$p] /" | head -4; fi
